@@ -9,6 +9,7 @@ import re
 from .. import common as C
 from .. import genprop as GP
 
+KNOWN_REGEX = "C20/regex-example-depends-on-neighbours"
 KNOWN_USED = "C20/allof-chain-usedUserTypes"
 
 
@@ -22,6 +23,8 @@ def known_rule(cls, what, doc):
         parts = [p.strip() for p in m.group(1).split(";")]
         if parts and all(p.endswith(": usedUserTypes") for p in parts) and doc.count("allOf") >= 2:
             return KNOWN_USED
+        if parts and all(p.endswith(": example-regex") or p.endswith(": usedUserTypes") for p in parts) and "regex" in doc:
+            return KNOWN_REGEX if any(p.endswith(": example-regex") for p in parts) else None
     return None
 
 
